@@ -2618,6 +2618,10 @@ int32 parseCertificateRequest(ssl_t *ssl,
             {
                 psFree(keySelect->caNames, ssl->hsPool);
                 psFree(keySelect->caNameLens, ssl->hsPool);
+                /* matrixSslDeleteSession frees these again */
+                keySelect->caNames = NULL;
+                keySelect->caNameLens = NULL;
+                keySelect->nCas = 0;
                 ssl->err = SSL_ALERT_INTERNAL_ERROR;
                 return MATRIXSSL_ERROR;
             }
